@@ -219,6 +219,14 @@ fn make_job(rng: &mut Rng, op: usize) -> Option<Job> {
             // one job in twelve decodes to nothing at all: no sink write, and still a flush (and a
             // failing flush still an error)
             let mut prog = if rng.chance(1, 12) { Vec::new() } else { pg.generate(rng, &pp, &mut it) };
+            // one job in six ends exactly on a window boundary (output a non-zero multiple of the
+            // 4096-byte dictionary): the last window is full when the decoder finishes
+            if !prog.is_empty() && rng.chance(1, 6) {
+                let l = it.hist.len();
+                for k in 0..(4096 - l % 4096) % 4096 {
+                    prog.push(Sym::Lit((k as u8).wrapping_mul(29) ^ 0x41));
+                }
+            }
             let marker = op != 3 && rng.chance(1, 2);
             if marker {
                 prog.push(Sym::Eos);
@@ -287,6 +295,9 @@ fn fam_jobs(ctx: &CaseCtx, cov: &mut Cov) -> CaseOut {
         cov.name("fault_free_output_checked_against_reference", 1);
     }
     let good = base.sink.clone();
+    if !good.is_empty() && good.len() % 4096 == 0 && matches!(op, 0 | 3 | 5 | 11 | 12 | 13) {
+        cov.name("decoder_jobs_ending_exactly_on_a_window_boundary", 1);
+    }
     if good.is_empty() && op <= 5 || good.is_empty() && op >= 11 {
         cov.name("decoder_jobs_with_empty_output", 1);
     }
